@@ -129,4 +129,17 @@ insulation the length is half the segment length and the value `jω·zins`. -/
 def distImpedance (halves : List (Option C × C)) : C :=
   halves.foldl (fun x h => x + distTerm h) ((0 : Nat) : C)
 
+/-- which per-object distributed loads (skin effect or insulation; named by their geo object) list a pulse after
+`register_load (load, None, tag)` for every loaded object and `fix_distributed_loads`: the load of the object that
+owns the pulse, and — for a pulse between two different objects of which exactly one is loaded — the load of that
+object unless it already lists the pulse.  `g0`, `g1`: the objects of the two halves; `owner` one of them. -/
+def distLoadsOf (owner g0 g1 : Nat) (loaded : Nat → Bool) : List Nat :=
+  let own := if loaded owner then [owner] else []
+  let fix :=
+    if g0 != g1 && (loaded g0 != loaded g1) then
+      let w := if loaded g0 then g0 else g1
+      if own.contains w then [] else [w]
+    else []
+  own ++ fix
+
 end Pmn.Circuit
